@@ -2013,8 +2013,35 @@ def _b_cnt(e, args, kw, st, ln):
     return e._cnt_apply(args[0])
 
 
+def _b_map(e: Engine, args, kw, st, ln):
+    """map(f, xs) with a local lambda: element-wise, like a comprehension"""
+    f, xs = args[0], e.to_seq(args[1])
+    if not (isinstance(f, VFunc) and f.node is not None and isinstance(f.node, ast.Lambda)):
+        raise Unsupported("map with a non-lambda function")
+    k0 = z3.Int(fresh_name("map_k"))
+    e.guards.append(z3.And(k0 >= 0, k0 < xs.length))
+    try:
+        sample = e.inline(f, [e.elem(xs, k0)], st.fork(), ln)       # safety obligations at an arbitrary index
+    finally:
+        e.guards.pop()
+
+    def at(i):
+        old = e.emit
+        e.emit = False
+        try:
+            return e.inline(f, [e.elem(xs, i)], st.fork(), ln)
+        finally:
+            e.emit = old
+    return VSeq("list", xs.length, at, e.type_of(sample))
+
+
+def _b_reversed(e: Engine, args, kw, st, ln):
+    s = e.to_seq(args[0])
+    return VSeq("list", s.length, lambda i, s=s: e.elem(s, s.length - 1 - i), s.elt)
+
+
 BUILTINS: Dict[str, Callable] = {
-    "_cnt": _b_cnt,
+    "_cnt": _b_cnt, "map": _b_map, "reversed": _b_reversed,
     "len": _b_len, "tuple": _b_tuple, "list": _b_list, "int": _b_int, "bool": _b_bool, "ord": _b_ord,
     "chr": _b_chr, "min": _b_minmax("min"), "max": _b_minmax("max"), "abs": _b_abs,
     "any": _b_anyall("any"), "all": _b_anyall("all"), "isinstance": _b_isinstance, "reduce": _b_reduce,
